@@ -45,6 +45,65 @@ func checkC05(w *World, r *Report) {
 		}
 	})
 
+	r.Rule("R05.10", "the accessors of a finished run cannot panic in the caller: in everything reachable from Result.GetBoolResult / GetNumResult / GetLiteralResult (the conversions of every datum kind; they run outside Run's recover) each index/slice expression, unchecked type assertion and explicit panic is discharged by a guard that is still present or a reviewed entry", 3)
+	r.guard("R05.10", func() {
+		var roots []*types.Func
+		for _, n := range []string{"GetBoolResult", "GetNumResult", "GetLiteralResult"} {
+			roots = append(roots, w.Method("xpath", "Result", n))
+		}
+		cone := staticCone(w, []string{"xpath", "xpath/xutils"}, roots, false)
+		scanPanicObligations(w, r, "R05.10", cone, c05AccessorReviewed, false, "reachable from a result accessor", "a finished run whose value is of that kind panics in the caller instead of yielding a value or an error")
+		// the fact the invalidDatum entries rest on
+		xp := w.Pkg("xpath")
+		execErr := w.Method("xpath", "context", "execError")
+		mk := w.Func("xpath", "NewInvalidDatum")
+		efd, _ := w.FuncDecl(execErr)
+		always := len(efd.Body.List) == 1
+		if always {
+			es, ok := efd.Body.List[0].(*ast.ExprStmt)
+			always = ok
+			if ok {
+				ce, ok := es.X.(*ast.CallExpr)
+				id, ok2 := ast.Unparen(ce.Fun).(*ast.Ident)
+				always = ok && ok2 && id.Name == "panic"
+			}
+		}
+		r.Check(always, "R05.10", "context.execError always panics", efd.Pos(), "body is a single panic(…)", "execError can return: the invalidDatum its callers return afterwards may become the result of a run")
+		for _, fd := range funcDecls(xp) {
+			if fd.Body == nil || isTestFile(w, fd.Pos()) {
+				continue
+			}
+			k := 0
+			ast.Inspect(fd.Body, func(n ast.Node) bool {
+				bs, ok := n.(*ast.BlockStmt)
+				if !ok {
+					return true
+				}
+				for i, st := range bs.List {
+					ret, ok := st.(*ast.ReturnStmt)
+					if !ok || len(ret.Results) != 1 {
+						continue
+					}
+					ce, ok := ret.Results[0].(*ast.CallExpr)
+					if !ok || calleeOf(xp, ce) != mk {
+						continue
+					}
+					k++
+					prev := false
+					if i > 0 {
+						if es, ok := bs.List[i-1].(*ast.ExprStmt); ok {
+							if pc, ok := es.X.(*ast.CallExpr); ok && calleeOf(xp, pc) == execErr {
+								prev = true
+							}
+						}
+					}
+					r.Check(prev, "R05.10", fmt.Sprintf("%s: return NewInvalidDatum() #%d", funcDeclName(fd), k), ret.Pos(), "directly after execError(…)", "an invalidDatum is returned without the run having been failed first: its conversions panic in the caller's accessor")
+				}
+				return true
+			})
+		}
+	})
+
 	r.Rule("R05.8", "no error is forgotten on the XPath side: in the xpath packages every error result bound to a variable is examined", 1)
 	r.guard("R05.8", func() {
 		errRule(w, r, "R05.8", []string{"xpath", "xpath/xutils", "xpath/grammars/expr", "xpath/grammars/leafref", "xpath/grammars/path_eval"}, nil)
@@ -302,6 +361,13 @@ type reviewedEntry struct {
 // expression (local variable names are part of the expression text; fields,
 // parameters and functions are resolved objects). Requires names a guard
 // fact that must still be present in the function.
+var c05AccessorReviewed = []reviewedEntry{
+	{"GetStringValue", "nodes[0]", "guarded by len(nodes) == 0 ⇒ return", "lenguard"},
+	{"invalidDatum.Boolean", "panic(fmt.Errorf(\"%s: Unable to convert datum to a boolean.\", context))", "an invalidDatum never reaches a result: every NewInvalidDatum() follows an execError call, which always panics (checked as a separate R05.10 obligation)", ""},
+	{"invalidDatum.Literal", "panic(fmt.Errorf(\"%s: Unable to convert datum to a string.\", context))", "see invalidDatum.Boolean", ""},
+	{"invalidDatum.Number", "panic(fmt.Errorf(\"%s: Unable to convert datum to a number.\", context))", "see invalidDatum.Boolean", ""},
+}
+
 var c05Reviewed = []reviewedEntry{
 	{"CommonLex.CreateProgram", "string(expr)[:currentPosInLine]", "position = len(expr) - len(lineAtErr) ≤ len(expr); clamped to ≥ 0", "clamp"},
 	{"CommonLex.CreateProgram", "string(expr)[currentPosInLine:]", "same position", "clamp"},
@@ -344,6 +410,10 @@ func compileCone(w *World) map[*types.Func]*ast.FuncDecl {
 // (when withValues) functions referenced as values (state functions).
 // Function literals are part of their enclosing function only when
 // withValues is set; otherwise only directly executed code is followed.
+// coneStopAt: functions a cone computation must not enter (set around a call of staticCone, e.g. the entry of
+// another goroutine).
+var coneStopAt map[*types.Func]bool
+
 func staticCone(w *World, keys []string, roots []*types.Func, withValues bool) map[*types.Func]*ast.FuncDecl {
 	decls := map[*types.Func]*ast.FuncDecl{}
 	pkgOf := map[*types.Func]*packages.Package{}
@@ -380,7 +450,7 @@ func staticCone(w *World, keys []string, roots []*types.Func, withValues bool) m
 	cone := map[*types.Func]*ast.FuncDecl{}
 	var work []*types.Func
 	add := func(f *types.Func) {
-		if f == nil || decls[f] == nil || cone[f] != nil {
+		if f == nil || decls[f] == nil || cone[f] != nil || coneStopAt[f] {
 			return
 		}
 		cone[f] = decls[f]
